@@ -360,11 +360,11 @@ def valData : Val → Option (List Rat)
   | .arr _ shape data => if shape.length ≤ 1 then some data else none
 
 /-- a cell the tabular forms can hold: every value numeric with one common sample count `n`;
-a sampled cell (`n ≥ 2`) has every field of the triangle -/
+a sampled cell (`n ≥ 2`) has at least one of the triangle's fields (cells may carry DIFFERENT field sets) -/
 structure CellOK (c : Cell) (F : List String) (n : Nat) : Prop where
   pos : 1 ≤ n
   vals : ∀ kv ∈ c.values, ∃ data, valData kv.2 = some data ∧ data.length = n
-  full : 2 ≤ n → F ≠ [] ∧ ∀ f ∈ F, f ∈ Dict.keys c.values
+  full : 2 ≤ n → ∃ f ∈ F, f ∈ Dict.keys c.values
   nodup : (Dict.keys c.values).Nodup
 
 theorem mapM_ok_of_forall {α β ε : Type} (f : α → Except ε β) (g : α → β) :
@@ -391,21 +391,52 @@ theorem replicate_eraseDups (n k : Nat) : (List.replicate (k + 1) n).eraseDups =
   | zero => simp [List.eraseDups_cons]
   | succ k ih => rw [List.replicate_succ, List.eraseDups_cons]; simp
 
+theorem pickLength_mixed {n : Nat} (hn : 1 ≤ n) : ∀ (l : List Nat), (∀ x ∈ l, x = n ∨ x = 1) →
+    (2 ≤ n → n ∈ l) → pickLength l = .ok n := by
+  intro l hall hmem
+  unfold pickLength
+  by_cases h2 : 2 ≤ n
+  · have hne1 : (n != 1) = true := by simp; omega
+    have hl' : ∀ x ∈ l.filter (· != 1), x = n := by
+      intro x hx
+      obtain ⟨hx1, hx2⟩ := List.mem_filter.mp hx
+      rcases hall x hx1 with h | h
+      · exact h
+      · subst h; simp at hx2
+    have hin : n ∈ l.filter (· != 1) := List.mem_filter.mpr ⟨hmem h2, hne1⟩
+    have hrep : l.filter (· != 1) = List.replicate (l.filter (· != 1)).length n :=
+      List.eq_replicate_iff.mpr ⟨rfl, hl'⟩
+    obtain ⟨k, hk⟩ : ∃ k, (l.filter (· != 1)).length = k + 1 := by
+      cases hf : l.filter (· != 1) with
+      | nil => rw [hf] at hin; cases hin
+      | cons a t => exact ⟨t.length, rfl⟩
+    rw [hrep, hk, replicate_eraseDups]
+  · have h1 : n = 1 := by omega
+    subst h1
+    have hf : l.filter (· != 1) = [] := by
+      rw [List.filter_eq_nil_iff]
+      intro x hx
+      rcases hall x hx with h | h <;> simp [h]
+    rw [hf]; rfl
+
 theorem commonFieldLength_ok {c : Cell} {F : List String} {n : Nat} (h : CellOK c F n) :
     commonFieldLength c F = .ok n := by
   unfold commonFieldLength
-  have hl : F.mapM (fieldLen c) = .ok (F.map fun _ => n) := by
+  have hl : F.mapM (fieldLen c) = .ok (F.map fun f => if (Dict.keys c.values).contains f then n else 1) := by
     apply mapM_ok_of_forall
     intro f hf
     cases hg : Dict.get? c.values f with
     | none =>
-      simp only [fieldLen, hg]
-      by_cases h2 : 2 ≤ n
-      · have := (h.full h2).2 f hf
-        exact absurd (Dict.get?_eq_none_iff.mp hg) (by simpa using this)
-      · have : n = 1 := by have := h.pos; omega
-        rw [this]
+      have : (Dict.keys c.values).contains f = false := by
+        have := Dict.get?_eq_none_iff.mp hg
+        simpa using this
+      simp only [fieldLen, hg, this]
+      rfl
     | some v =>
+      have hk : (Dict.keys c.values).contains f = true := by
+        have := List.mem_map_of_mem (f := Prod.fst) (get?_mem hg)
+        simpa [Dict.keys] using this
+      simp only [hk, if_true]
       obtain ⟨data, hd, hlen⟩ := h.vals (f, v) (get?_mem hg)
       cases v with
       | none => simp [valData] at hd
@@ -424,24 +455,18 @@ theorem commonFieldLength_ok {c : Cell} {F : List String} {n : Nat} (h : CellOK 
           simp only [fieldLen, hg, this, if_false, hlen]
         · cases hd
   rw [hl]
-  simp only [Except.bind, pickLength]
-  rw [List.map_const']
-  by_cases h2 : 2 ≤ n
-  · have hne := (h.full h2).1
-    obtain ⟨k, hk⟩ : ∃ k, F.length = k + 1 := by
-      cases F with
-      | nil => exact absurd rfl hne
-      | cons a t => exact ⟨t.length, rfl⟩
-    have hf : (List.replicate (k + 1) n).filter (· != 1) = List.replicate (k + 1) n := by
-      rw [List.filter_replicate]
-      have : (n != 1) = true := by simp; omega
-      simp [this]
-    rw [hk, hf, replicate_eraseDups]
-  · have : n = 1 := by have := h.pos; omega
-    subst this
-    have hf : (List.replicate F.length 1).filter (· != 1) = [] := by
-      rw [List.filter_replicate]; simp
-    rw [hf]; rfl
+  simp only [Except.bind]
+  apply pickLength_mixed h.pos
+  · intro x hx
+    obtain ⟨f, _, rfl⟩ := List.mem_map.mp hx
+    by_cases hc : (Dict.keys c.values).contains f = true
+    · left; rw [if_pos hc]
+    · right; rw [if_neg hc]
+  · intro h2
+    obtain ⟨f, hf, hk⟩ := h.full h2
+    refine List.mem_map.mpr ⟨f, hf, ?_⟩
+    have : (Dict.keys c.values).contains f = true := by simpa using hk
+    rw [if_pos this]
 
 /-- the entry of field `f` in scenario `i` -/
 def pureEntry (c : Cell) (i : Nat) (f : String) : Option (String × Rat) :=
@@ -736,7 +761,8 @@ theorem filterMap_id_getElem (data : List Rat) :
     congr 1
 
 theorem assembleField_two (f : String) (es : List (Option Rat)) (h : 2 ≤ es.length) :
-    assembleField f es = if es.all Option.isSome then .ok (some (f, Val.arr false [es.length] (es.filterMap id)))
+    assembleField f es = if es.all Option.isNone then .ok none
+      else if es.all Option.isSome then .ok (some (f, Val.arr false [es.length] (es.filterMap id)))
       else .error .typeError := by
   match es, h with
   | a :: b :: rest, _ => rfl
@@ -758,12 +784,16 @@ theorem groupFieldVal_block {c : Cell} {F : List String} {n : Nat} (h : CellOK c
   unfold reconField
   cases hg : Dict.get? c.values f with
   | none =>
-    have h1 : n = 1 := by
-      by_cases h2 : 2 ≤ n
-      · exact absurd (Dict.get?_eq_none_iff.mp hg) (by simpa using (h.full h2).2 f hf)
-      · have := h.pos; omega
-    subst h1
-    simp [assembleField]
+    simp only [Option.bind_none, Option.map_none]
+    by_cases h2 : 2 ≤ n
+    · match n, h2 with
+      | k + 2, _ =>
+        rw [assembleField_two _ _ (by simp)]
+        have : (((List.range (k + 2)).map fun _ => (none : Option Rat)).all Option.isNone) = true := by simp
+        rw [if_pos this]
+    · have h1 : n = 1 := by have := h.pos; omega
+      subst h1
+      simp [assembleField]
   | some v =>
     obtain ⟨data, hd, hdl⟩ := h.vals (f, v) (get?_mem hg)
     simp only [Option.bind_some, hd, Option.map_some]
@@ -777,7 +807,14 @@ theorem groupFieldVal_block {c : Cell} {F : List String} {n : Nat} (h : CellOK c
           obtain ⟨i, hi, rfl⟩ := List.mem_map.mp ho
           have : i < data.length := by rw [hdl]; exact List.mem_range.mp hi
           simp [List.getElem?_eq_getElem this]
-        rw [assembleField_two _ _ (by simp), if_pos hall]
+        have hnn : (((List.range (k + 2)).map fun i => data[i]?).all Option.isNone) = false := by
+          rw [List.all_eq_false]
+          refine ⟨data[0]?, List.mem_map.mpr ⟨0, by simp, rfl⟩, ?_⟩
+          have h0 : 0 < data.length := by omega
+          simp [List.getElem?_eq_getElem h0]
+        rw [assembleField_two _ _ (by simp), hnn]
+        simp only [Bool.false_eq_true, if_false]
+        rw [if_pos hall]
         have hes2 : ((List.range (k + 2)).map fun i => data[i]?) = (List.range data.length).map fun i => data[i]? := by
           rw [hdl]
         rw [hes2, filterMap_id_getElem]
